@@ -52,8 +52,12 @@ func (fs *FS) Sub(dir string) (hackpadfs.FS, error) {
 	if !hackpadfs.ValidPath(dir) {
 		return nil, &hackpadfs.PathError{Op: "sub", Path: dir, Err: hackpadfs.ErrInvalid}
 	}
+	root := path.Join(fs.root, dir)
+	if root == "." {
+		root = "" // a view of "." on a file system without a root has no root either ("." is not a prefix of any path)
+	}
 	return &FS{
-		root:       path.Join(fs.root, dir),
+		root:       root,
 		volumeName: fs.volumeName,
 	}, nil
 }
